@@ -180,6 +180,13 @@ func (vc *VC) callFunc(callee *types.Func, recv Value, recvExpr ast.Expr, call *
 				recursive = true
 			}
 		}
+		if vc.fc != nil {
+			for _, ni := range vc.fc.NoInline {
+				if strings.HasSuffix(key, "."+ni) {
+					recursive = true // treated like recursion: not inlined
+				}
+			}
+		}
 		if !recursive && (depth <= maxd || (fc != nil && fc.Inline)) {
 			vc.inlinedCalls[key] = true
 			return vc.inlineFunc(fi, fc, recv, recvExpr, args, call, targs, st)
@@ -584,6 +591,15 @@ func (vc *VC) ifaceCall(callee *types.Func, key string, recv Term, args []Value,
 // ifaceFn returns result k of a pure interface method as an uninterpreted
 // function application.
 func (vc *VC) ifaceFn(key string, sig *types.Signature, k int, recv Term, args []Value, pos token.Pos) Term {
+	res := vc.ifaceFnTerm(key, sig, k, recv, args, pos)
+	if f := vc.rangeFacts(res, res.T, 0); f.S != "true" {
+		vc.assume(tBool(true), f)
+	}
+	vc.maybeDispatch(key, sig)
+	return res
+}
+
+func (vc *VC) ifaceFnTerm(key string, sig *types.Signature, k int, recv Term, args []Value, pos token.Pos) Term {
 	rt := sig.Results().At(k).Type()
 	rs := vc.ss.sortOf(rt)
 	fn := fmt.Sprintf("im.%s.%d", sanitize(strings.TrimPrefix(key, modPath+"/")), k)
@@ -598,11 +614,120 @@ func (vc *VC) ifaceFn(key string, sig *types.Signature, k int, recv Term, args [
 		sorts = append(sorts, string(tm.Sort))
 	}
 	vc.ss.declare(&sortInfo{Name: Sort("fn$" + fn), Kind: "const", Decl: fmt.Sprintf("(declare-fun %s (%s) %s)", fn, strings.Join(sorts, " "), rs)})
-	res := Term{app(fn, ats...), rs, rt}
-	if f := vc.rangeFacts(res, rt, 0); f.S != "true" {
-		vc.assume(tBool(true), f)
+	return Term{app(fn, ats...), rs, rt}
+}
+
+// maybeDispatch imports, as quantified axioms, the contracts of the concrete
+// methods that implement a pure interface method (dynamic dispatch): for
+// every implementer T with a contract,
+//
+//	forall r:T, args. requires(r,args) => ensures(r, args, results := I.m#k(inj(r), args)).
+//
+// This is sound when every such method satisfies its contract (each is
+// verified in its own property group, or is listed as trusted) and is
+// deterministic. It is opt-in per function (`dispatch <Iface.Method>`).
+func (vc *VC) maybeDispatch(key string, sig *types.Signature) {
+	if vc.fc == nil {
+		return
 	}
-	return res
+	want := false
+	for _, d := range vc.fc.Dispatch {
+		if strings.HasSuffix(key, "."+d) || key == d {
+			want = true
+		}
+	}
+	if !want || vc.dispatched[key] {
+		return
+	}
+	if vc.dispatched == nil {
+		vc.dispatched = map[string]bool{}
+	}
+	vc.dispatched[key] = true
+	ifaceT := sig.Recv().Type()
+	iface, ok := vc.underlying(ifaceT).(*types.Interface)
+	if !ok {
+		return
+	}
+	isort := vc.ss.sortOf(ifaceT)
+	name := key[strings.LastIndex(key, ".")+1:]
+	for _, T := range vc.w.implementers(iface, typeKey(ifaceT)) {
+		n, ok := derefNamed(T)
+		if !ok {
+			continue
+		}
+		obj, _, _ := types.LookupFieldOrMethod(T, true, n.Obj().Pkg(), name)
+		m, ok := obj.(*types.Func)
+		if !ok {
+			continue
+		}
+		k2 := funcObjKey(m)
+		fc2 := vc.w.cs.Funcs[k2]
+		if fc2 == nil || len(fc2.Ensures) == 0 {
+			continue
+		}
+		msig := m.Type().(*types.Signature)
+		env := &SpecEnv{vc: vc, vars: map[string]Value{}, old: map[string]Value{}, bound: map[string]Term{}, pkg: fc2.Pkg}
+		var decls []string
+		var facts []Term
+		ts := vc.ss.sortOf(T)
+		// quantify over the interface value so that the axiom triggers on any
+		// application of the interface function
+		iv := Term{"i?", isort, ifaceT}
+		decls = append(decls, fmt.Sprintf("(i? %s)", isort))
+		facts = append(facts, vc.ss.hasTag(isort, iv, T))
+		r := vc.ss.proj(isort, iv, T)
+		recvTerm := r
+		// adapt to the method's receiver kind
+		mrs := vc.ss.sortOf(msig.Recv().Type())
+		if mrs != ts {
+			if si := vc.ss.info[ts]; si != nil && si.Kind == "ptr" {
+				facts = append(facts, Term{fmt.Sprintf("((_ is ref.%s) %s)", ts, r.S), SBool, nil})
+				recvTerm = Term{fmt.Sprintf("(val.%s %s)", ts, r.S), mrs, msig.Recv().Type()}
+			} else {
+				continue
+			}
+		} else if si := vc.ss.info[ts]; si != nil && si.Kind == "ptr" {
+			facts = append(facts, Term{fmt.Sprintf("((_ is ref.%s) %s)", ts, r.S), SBool, nil})
+		}
+		rn := msig.Recv().Name()
+		if rn == "" || rn == "_" {
+			rn = "self"
+		}
+		env.bound[rn] = recvTerm
+		env.bound["self"] = recvTerm
+		var args []Value
+		for i, pn := range vc.paramNames(fc2, msig) {
+			pt := msig.Params().At(i).Type()
+			ps := vc.ss.sortOf(pt)
+			a := Term{fmt.Sprintf("a%d?", i), ps, pt}
+			decls = append(decls, fmt.Sprintf("(a%d? %s)", i, ps))
+			env.bound[pn] = a
+			args = append(args, a)
+			if f := vc.rangeFacts(a, pt, 1); f.S != "true" {
+				facts = append(facts, f)
+			}
+		}
+		var pats []string
+		for i, rname := range vc.resultNames(fc2, msig) {
+			res := vc.ifaceFnTerm(key, sig, i, iv, args, token.NoPos)
+			env.bound[rname] = res
+			if msig.Results().Len() == 1 {
+				env.bound["result"] = res
+			}
+			pats = append(pats, ":pattern ("+res.S+")")
+		}
+		for _, rq := range fc2.Requires {
+			facts = append(facts, vc.specBool(rq.Expr, env))
+		}
+		var posts []Term
+		for _, en := range fc2.Ensures {
+			posts = append(posts, vc.specBool(en.Expr, env))
+		}
+		body := tImp(tAnd(facts...), tAnd(posts...))
+		vc.gassumes = append(vc.gassumes, fmt.Sprintf("(assert (forall (%s) (! %s %s))) ; dispatch %s -> %s",
+			strings.Join(decls, " "), body.S, strings.Join(pats, " "), key, k2))
+		vc.axiomsUsed = append(vc.axiomsUsed, "dispatch:"+strings.TrimPrefix(k2, modPath+"/"))
+	}
 }
 
 // ------------------------------------------------------------ inlining
